@@ -28,10 +28,11 @@ pub enum Kind {
     /// unused
     None = 0,
     // ---- GC request (GCRequester / GCTrigger) ----
-    /// `GCRequester::request` entered. a = 1 if the request flag was already set (elided), else 0.
+    /// `GCTrigger::request` entered (`src/util/heap/gc_trigger.rs`; there is no separate
+    /// `GCRequester` any more). a = 1 if the request flag was already set (elided), else 0.
     /// Logged BEFORE the flag is set / the monitor is asked.
     GcRequest = 1,
-    /// `GCRequester::clear_request` (before the flag is cleared).
+    /// `GCTrigger::clear_request` (before the flag is cleared).
     GcClearRequest = 2,
     // ---- WorkerMonitor ----
     /// `make_request`, under the mutex, before `set_request`. a = goal (0 Gc, 1 Shutdown, 2 StopForFork).
@@ -50,9 +51,11 @@ pub enum Kind {
     MonWake = 8,
     /// after `dec_parked_workers` (under the mutex). a = ordinal.
     MonUnpark = 9,
-    /// `park_and_wait` returns `Err(WorkerShouldExit)`. a = ordinal, b = goal (1 Shutdown, 2 StopForFork).
+    /// `park_and_wait` returns `Err(WorkerShouldExit)` (logged before the `return`, under the
+    /// mutex). a = ordinal, b = goal (1 Shutdown, 2 StopForFork).
     MonExit = 10,
-    /// `on_all_workers_exited`, before `on_current_goal_completed`.
+    /// `on_all_workers_exited`, under the mutex, before `on_current_goal_completed` (a
+    /// `GoalCompleted` follows). a = current goal (1 Shutdown, 2 StopForFork, 0xff none).
     MonAllExited = 11,
     /// `notify_work_available`. a = all (0/1). Logged before the notify.
     MonNotify = 12,
@@ -76,32 +79,38 @@ pub enum Kind {
     /// `WorkBucket::poll` returned `Steal::Success`. a = pid, b = tag. (after)
     BucketPollOk = 20,
     // ---- worker ----
-    /// `GCWorker::add_work[_prioritized]` pushes to the local buffer (before). a = 0 (pid not yet
-    /// known: the packet is boxed in the push expression), b = tag.
+    /// `GCWorker::add_work[_prioritized]` pushes to the local buffer (before). a = pid (the
+    /// verification build boxes the packet first, in an early block that replaces the original
+    /// push line), b = tag (stage = the `bucket` argument).
     WorkerLocalPush = 21,
     /// `GCWorker::poll` popped from the local buffer (after). a = pid, b = tag (stage 0xff).
     WorkerLocalPop = 22,
-    /// designated work pushed (before). a = pid, b = (target ordinal << 40) | tag.
+    /// designated work pushed (before; `Prepare::do_work` / `Release::do_work` in
+    /// `scheduler/gc_work.rs`). a = pid (the two designated packet types are ZSTs, so this is the
+    /// shared dangling address), b = (target ordinal << 40) | tag (stage 0xff).
     DesignatedPush = 23,
-    /// designated work popped by its worker (after). a = pid, b = tag (stage 0xff).
+    /// designated work popped by its worker (after; `GCWorker::poll` and
+    /// `GCWorkScheduler::poll_schedulable_work_once`). a = pid, b = tag (stage 0xff).
     DesignatedPop = 24,
-    /// a worker stole a packet from another worker / got it from `poll_schedulable_work` by
-    /// stealing (after). a = pid, b = tag (stage 0xff).
+    /// a worker stole a packet from another worker's local deque in
+    /// `poll_schedulable_work_once` (after). a = pid, b = (victim ordinal << 40) | tag (stage 0xff).
     WorkerSteal = 25,
     /// just before `do_work_with_stat`. a = pid, b = tag (stage 0xff).
     PacketStart = 26,
-    /// just after `do_work_with_stat`. a = pid (address only; the box is freed), b = tag.
+    /// just after `do_work_with_stat`. a = pid, b = tag (both computed before the call; same
+    /// values as the matching `PacketStart`).
     PacketEnd = 27,
     /// `GCWorker::run` entered its loop. a = ordinal.
     WorkerRun = 28,
     /// `GCWorker::run` left its loop (before surrender). a = ordinal.
     WorkerLeave = 29,
     // ---- scheduler ----
-    /// `on_gc_finished` begin.
+    /// `on_gc_finished` begin. a = ordinal of the (last parked) worker. Under the monitor mutex.
     GcFinishedBegin = 30,
-    /// `on_gc_finished` just before `resume_mutators`.
+    /// `on_gc_finished` just before `resume_mutators` (after `set_gc_status(NotInGC)`). a = ordinal.
     GcBeforeResume = 31,
-    /// `on_gc_finished` end.
+    /// `on_gc_finished` end (after `resume_mutators` returned). a = ordinal,
+    /// b = concurrent_work_scheduled (0/1).
     GcFinishedEnd = 32,
     /// `surrender_gc_worker` (scheduler level, before). a = ordinal.
     Surrender = 33,
@@ -111,19 +120,24 @@ pub enum Kind {
     Respawn = 35,
     /// `WorkerGroup::initial_spawn` (before spawning). a = number of workers.
     InitialSpawn = 36,
-    /// `on_last_parked` entered. a = current goal (0 Gc, 1 Shutdown, 2 StopForFork, 0xff none).
+    /// `on_last_parked` entered (under the monitor mutex). a = current goal (0 Gc, 1 Shutdown,
+    /// 2 StopForFork, 0xff none), b = ordinal.
     LastParkedEnter = 37,
-    /// `respond_to_requests` picked a goal. a = goal.
+    /// `respond_to_requests` picked a goal (after `poll_next_goal`, under the monitor mutex).
+    /// a = goal, b = ordinal.
     GoalStarted = 38,
-    /// current goal completed. a = goal.
+    /// current goal about to be completed (before `on_current_goal_completed`, under the monitor
+    /// mutex; in `on_last_parked` for Gc and in `on_all_workers_exited` for the exit goals). a = goal.
     GoalCompleted = 39,
-    /// `notify_mutators_paused` (before opening the first STW bucket).
+    /// `notify_mutators_paused` entered (before `clear_request` and before opening the first STW
+    /// bucket; a `GcClearRequest`, a `BucketOpen` and a `MonNotify` follow).
     MutatorsPaused = 40,
-    /// `schedule_sentinels` result. a = 1 if any scheduled.
+    /// `schedule_sentinels` result (before it returns). a = 1 if any scheduled.
     SchedSentinels = 41,
-    /// `update_buckets` result. a = 1 if any bucket opened.
+    /// `update_buckets` result (before it returns). a = returned value (1 if a bucket was opened
+    /// and new packets are available), b = 1 if any bucket was opened.
     UpdateBuckets = 42,
-    /// `stop_gc_threads_for_forking` / `shutdown` request. a = goal.
+    /// `stop_gc_threads_for_forking` / `shutdown_gc_threads` entered. a = goal.
     StopRequest = 43,
     /// `WorkBucket::poll` returned `Steal::Success` (logged right after `BucketPollOk`, by the same
     /// thread). a = stage, b = number of *additional* packets `steal_batch_and_pop` moved from the
@@ -132,23 +146,42 @@ pub enum Kind {
     /// the bucket without a `BucketPollOk` and later show up as `WorkerLocalPop` / `WorkerSteal`.
     BucketPollBatch = 44,
     // ---- page resources ----
-    /// `get_new_pages` succeeded (after). a = (space name hash << 32) | pages, b = start address.
+    // The page resources do not know the name of their space, so all of these are logged by the
+    // caller at space / policy level (`policy/space.rs` and the policies), keyed by
+    // `space_tag(Space::get_name(), pages)`.
+    /// `pr.get_new_pages` succeeded (after; `Space::get_new_pages_and_initialize`, holding the
+    /// space's `acquire_lock`). a = (space name hash << 32) | pages actually allocated
+    /// (`res.pages`), b = start address. Always directly preceded by a `PrCommit`.
     PrGetNewPages = 50,
-    /// `get_new_pages` failed (after). a = (space name hash << 32) | pages required.
+    /// `pr.get_new_pages` failed (after; same place). a = (space name hash << 32) | pages
+    /// required, b = pages reserved. A `PrClearRequest` follows.
     PrGetNewPagesFail = 51,
-    /// `release_pages` (FreeListPageResource; before). a = (space name hash << 32) | pages freed (0 if
-    /// unknown before the call), b = first address.
+    /// `FreeListPageResource::release_pages` (before the call; `LargeObjectSpace::
+    /// release_multiple_pages` and `sweep_large_pages`). a = (space name hash << 32) | 0 (the
+    /// number of pages is only known inside the page resource; it is the size of the allocation
+    /// that returned `b`), b = first address.
     PrReleasePages = 52,
-    /// `BlockPageResource::release_block` (before). a = space name hash << 32, b = block start.
+    /// `BlockPageResource::release_block` (before the call; `ImmixSpace::release_block`,
+    /// `MarkSweepSpace::release_block`). a = (space name hash << 32) | pages per block,
+    /// b = block start.
     PrReleaseBlock = 53,
-    /// `MonotonePageResource::reset` (before). a = space name hash << 32.
+    /// `MonotonePageResource::reset` (before the call; `CopySpace::release`).
+    /// a = (space name hash << 32) | reserved pages before the reset.
     PrReset = 54,
-    /// `reserve_pages`. a = (space name hash << 32) | pages.
+    /// `pr.reserve_pages` (before the call; `Space::acquire`). a = (space name hash << 32) | pages.
     PrReserve = 55,
-    /// `clear_request` (reserved → 0 adjustment on failure). a = (hash << 32) | pages.
+    /// `pr.clear_request` (before the call; `Space::not_acquiring`).
+    /// a = (hash << 32) | pages reserved, b = attempted_allocation_and_failed (0/1).
     PrClearRequest = 56,
-    /// `commit_pages`. a = (hash << 32) | reserved pages, b = actual pages.
+    /// the `commit_pages` done inside a successful `get_new_pages` (derived: logged AFTER
+    /// `get_new_pages` returned, directly before `PrGetNewPages`, holding the space's
+    /// `acquire_lock`). a = (hash << 32) | reserved pages, b = actual pages.
     PrCommit = 57,
+    /// `MonotonePageResource::reset_cursor` (`MarkCompactSpace::compact`; a = (hash << 32) |
+    /// reserved pages before) or `RegionPageResource::reset_cursor` (`CompressorSpace::
+    /// compact_region`; a = (hash << 32) | pages released in that region). Before the call.
+    /// b = new cursor (unaligned `to` address).
+    PrResetCursor = 58,
     // ---- binding callbacks (logged by the harness, not by mmtk-core) ----
     /// `stop_all_mutators` begin.
     VmStopBegin = 64,
@@ -248,6 +281,7 @@ pub const KIND_NAMES: &[(u32, &str)] = &[
     (55, "PrReserve"),
     (56, "PrClearRequest"),
     (57, "PrCommit"),
+    (58, "PrResetCursor"),
     (64, "VmStopBegin"),
     (65, "VmStopEnd"),
     (66, "VmScanMutator"),
@@ -549,17 +583,21 @@ pub enum Site {
     LogObject = 4,
     /// LOS `test_and_mark`
     LosTestAndMark = 5,
-    /// `forward_object`: before the final FORWARDED store
+    /// `forward_object`: before the final FORWARDED store (both branches: the combined
+    /// pointer+bits store, and between `write_forwarding_pointer` and the bits store)
     ForwardObjectBeforeStore = 6,
     /// `spin_and_get_forwarded_object`: inside the spin loop
     SpinForwarded = 7,
     /// `BlockPool::push` between counter update and queue update
     BlockPoolPush = 8,
-    /// `BlockPool::pop` between counter update and queue update
+    /// `BlockPool::pop`: after the `len() == 0` check, and between each successful queue pop and
+    /// the `count.fetch_sub` (three places)
     BlockPoolPop = 9,
     /// `park_and_wait` before taking the mutex
     ParkBeforeLock = 10,
-    /// SATB barrier between reading the fields and clearing the unlog bit
+    /// SATB barrier: `SATBBarrierSemantics::object_reference_write_slow` between reading the
+    /// fields (`object_probable_write_slow`) and clearing the unlog bit (`log_object`); also
+    /// `SATBBarrier::object_reference_write_pre` between the unlog-bit check and the slow path
     SatbBarrier = 11,
     /// `WorkBucket::add`: between the push and the notify
     BucketAddBeforeNotify = 12,
@@ -612,3 +650,6 @@ pub fn yp(site: Site) {
 // ---------------------------------------------------------------------------------------------
 // Accessors (crate-private state) — see the section below, added by the harness author
 // ---------------------------------------------------------------------------------------------
+
+/// Accessors to crate-private state (spaces, SFT/VM map lookups, allocator mapping, Immix tables).
+pub mod acc;
